@@ -483,7 +483,11 @@ pub fn check(rec: &RunRecord) -> Vec<Violation> {
     // An injected store fault makes the agent fail (that is the correct reaction): nothing about
     // convergence at quiescence can be demanded of such a run.
     // A run that was cut off by the step limit is incomplete: what must have happened "by the end" is not judged.
-    let clean_end = matches!(sc.ending, Ending::Stop | Ending::Timeout) && !rec.store_fault_fired && !rec.step_limit_hit;
+    // A control command made the agent task fail: the run is judged like one with a failed store, except that the
+    // runtime must still close every open link (below).
+    let crashed = rec.truth.first().map(|t| t.iter().any(|(_, e)| matches!(e, TruthEv::Ctl { ctl: Ctl::Crash }))).unwrap_or(false);
+    let clean_end = matches!(sc.ending, Ending::Stop | Ending::Timeout) && !rec.store_fault_fired && !rec.step_limit_hit && !crashed;
+    let crashed_end = crashed && matches!(sc.ending, Ending::Stop | Ending::Timeout) && !rec.store_fault_fired && !rec.step_limit_hit;
 
     // ---------------- C02: the map the lane actually holds (read back with get_map at the end of a control
     // command) equals the fold of the changes its lifecycle handlers were told about.
@@ -663,17 +667,21 @@ pub fn check(rec: &RunRecord) -> Vec<Violation> {
             }
         }
         // On a clean stop every link that is open must be closed with unlinked (peers keep reading).
-        if clean_end && rec.agent_ends.first().map(|e| e.is_some()).unwrap_or(false) && info.closed_read.is_none() && linked {
+        if (clean_end || crashed_end) && rec.agent_ends.first().map(|e| e.is_some()).unwrap_or(false) && info.closed_read.is_none() && linked {
             let reader_ended_early = rec.hist.reader_end.iter().any(|(_, p, why)| p == peer && why.starts_with("io-error"));
             if !reader_ended_early {
-                out.push(Violation::new("C04", "C04.stop_without_unlinked", "", format!("peer {peer} lane {lane}: link still open after the agent stopped cleanly")));
+                if crashed_end {
+                    out.push(Violation::new("C04", "C04.stop_without_unlinked", "agent_failed", format!("peer {peer} lane {lane}: link still open after the agent task failed and the runtime stopped")));
+                } else {
+                    out.push(Violation::new("C04", "C04.stop_without_unlinked", "", format!("peer {peer} lane {lane}: link still open after the agent stopped cleanly")));
+                }
             }
         }
 
         // When a lane fails every open link to it is closed with unlinked.
         // (Only an undecodable frame is a *failure* for the runtime; a lane that merely closes its
         // channel is treated as having ended and its links are closed when the agent stops.)
-        let garbage = matches!(rec.scenario.fake.as_ref().map(|f| &f.mode), Some(super::fake::FailMode::Garbage));
+        let garbage = matches!(rec.scenario.fake.as_ref().map(|f| &f.mode), Some(super::fake::FailMode::Garbage | super::fake::FailMode::TornFrame));
         if let (Some(fs), Some(qs), true, true) = (lane_failed, q, clean_end, garbage) {
             // Only links that were open when the lane failed are covered by the statement: a link
             // requested after the failure is out of scope (the runtime accepts it; recorded as an observation).
